@@ -5,7 +5,15 @@ Per run: a generated history is installed in a target pack repository batch by b
 k revisions, pack, pack+clean_obsolete_packs) is executed once fault-free to count its
 mutating store operations, and then re-executed from the identical pre-state (forked copy
 of the run child) with the process crashed at operation k — op dropped, op applied, or
-(for appends / stream writes) a torn prefix applied.  A fresh process then judges."""
+(for appends / stream writes) a torn prefix applied.  A fresh process then judges.
+
+Scenarios `repack` / `repack_same` run pack() on a repository that an earlier pack() already
+left optimal (through fresh objects / through the same objects), with the crash points
+enumerated inside the second pack().  For operations that save pack-names, every store
+operation (reads included) AFTER the pack-names put is additionally hit with an injected
+I/O error (OSError / transport error) and with an interrupt (KeyboardInterrupt raised at the
+seam): the process survives and cleans up as it sees fit, then a fresh process judges the
+same way."""
 
 from simkit import forkenum, world
 from simkit.sim import Sim, SimCrash, Violation, derive_seed
@@ -16,20 +24,24 @@ from .storesim import MHist, gen_chain, replay_model
 PROPERTY = "C04"
 LEVEL = "fault_enumeration"
 RULE = (
-    "one case = one crash point: (generated pre-state of packs, scenario, mutating store op index k, variant "
-    "dropped|applied|torn); quick samples <=12 points per run, thorough enumerates every k; non-trivial = the crash "
-    "landed strictly inside the scenario (after its first and before its last mutating op); distinct = distinct "
-    "event-log digests of such crash executions"
+    "one case = one fault point: (generated pre-state of packs, scenario, mutating store op index k, variant "
+    "dropped|applied|torn) or (store op index a - reads included - after the scenario's pack-names put, injected error "
+    "enospc|transport|connection|permission or KeyboardInterrupt before that op); quick samples <=10 points per run "
+    "(stratified: index writes, pack-names, obsolete_packs, the rest) and re-runs the scenario after recovery on a third "
+    "of them, thorough enumerates every k, every a and always re-runs; non-trivial = the fault landed strictly inside "
+    "the scenario (after its first and before its last mutating op); distinct = distinct event-log digests of such "
+    "fault executions"
 )
 COMPONENTS = {
     "real": ["breezy.bzr.pack_repo (RepositoryPackCollection, write groups, autopack, pack)", "groupcompress_repo / knitpack_repo", "bzrformats pack+btree index code (Rust)", "breezy.commit via MemoryTree/BranchBuilder", "fetch via Branch.pull", "LockDir", "Repository.check()"],
-    "simulated": ["disk (SimTransport over dromedary MemoryTransport)", "process crash (actor refused at the seam after op k)", "clock of breezy.lockdir"],
+    "simulated": ["disk (SimTransport over dromedary MemoryTransport)", "process crash (actor refused at the seam after op k)", "I/O error or KeyboardInterrupt raised at the seam before a store op (the process continues)", "clock of breezy.lockdir"],
     "stub": ["UI", "source repository lives on a second simulated store without faults"],
 }
 ASSUMPTIONS = [
     "crash = the process stops; operations applied before the crash are durable in order (no power-loss reordering)",
     "put_file/put_bytes/rename/move/mkdir are atomic; append/stream writes may be torn at the crash point",
     "after a crash the documented manual step break_lock is applied to repository and branch locks before re-use",
+    "error / interrupt faults are aimed at the ops after the pack-names put (past the commit point: the new state must be complete); exactly one fault per execution, delivered before the op takes effect; whatever clean-up the interrupted process performs is part of the system under test",
 ]
 
 
@@ -43,7 +55,7 @@ def config(tier):
     return {"budget_s": 55, "run_timeout": 240, "selftest": 4}
 
 
-PRE_KINDS = ["empty", "ones9", "n19", "random", "random", "ones4", "n109"]
+PRE_KINDS = ["empty", "ones9", "n19", "random", "random", "ones4", "n109", "ones19", "ones19", "ones19"]
 
 
 def generate(rng, tier):
@@ -57,12 +69,18 @@ def generate(rng, tier):
         batches = [1] * 4
     elif kind == "n19":
         batches = [10] + [1] * 9
+    elif kind == "ones19":
+        batches = [1] * 19  # an autopack has happened: obsolete_packs/ is not empty
     elif kind == "n109":
         batches = [20] + [1] * rng.choice([7, 8, 9])
     else:
         batches = [rng.choice([1, 1, 1, 2, 3, 5]) for _ in range(rng.randint(1, 8))]
-    scenario = rng.choice(["commit", "commit", "pull", "pull", "pack", "pack_clean"])
-    if not batches and scenario in ("pack", "pack_clean"):
+    scenario = rng.choice(["commit", "commit", "pull", "pull", "pack", "pack_clean", "repack", "repack", "repack_same"])
+    if scenario.startswith("repack") and rng.random() < 0.6:
+        fmt = "2a"  # (the groupcompress packer has its own 'already optimal' path)
+    if kind == "ones19":
+        scenario = rng.choice(["commit", "commit", "pull", "pack", "repack"])
+    if not batches and scenario in ("pack", "pack_clean", "repack", "repack_same"):
         scenario = "commit"
     npre = sum(batches)
     nscen = {"commit": 1, "pull": rng.choice([1, 2, 5, 10])}.get(scenario, 0)
@@ -80,6 +98,7 @@ def generate(rng, tier):
 
 
 TEARABLE = ("stream_write", "append", "put_na")
+ERRORS = ["enospc", "transport", "connection", "permission"]
 
 
 def _scenario(plan, tb, sb, specs, npre):
@@ -88,21 +107,22 @@ def _scenario(plan, tb, sb, specs, npre):
         storesim.commit_specs(tb, [specs[npre]])
     elif sc == "pull":
         tb.pull(sb, stop_revision=specs[npre + plan["nscen"] - 1]["id"].encode())
-    elif sc == "pack":
+    elif sc in ("pack", "repack", "repack_same"):
+        # (repack*: an earlier pack() already left the repository optimally packed)
         tb.repository.pack()
     elif sc == "pack_clean":
         tb.repository.pack(clean_obsolete_packs=True)
 
 
-def _recover_and_judge(sub, plan, mh, url_t, url_s, pre_set, post_set, site):
-    """Runs as a fresh process after the crash."""
+def _recover_and_judge(sub, plan, mh, url_t, url_s, pre_set, post_set, site, fkind="crash", rerun=True):
+    """Runs as a fresh process after the crash / failed operation."""
     from breezy import errors
 
     storesim.clear_caches()
     sc = plan["scenario"]
 
     def fail(oracle, detail):
-        sub.fail(oracle, [oracle, "crash", site], detail)
+        sub.fail(oracle, [oracle, fkind, site], detail)
 
     try:
         repo = storesim.open_repo(url_t + "t")
@@ -127,6 +147,8 @@ def _recover_and_judge(sub, plan, mh, url_t, url_s, pre_set, post_set, site):
             obj.break_lock()
         except Exception as e:  # noqa: BLE001
             fail("break_lock", f"break_lock failed: {type(e).__name__}: {e}")
+    if not rerun:
+        return
     # the same scenario re-run to completion (leftovers must not break it)
     specs = plan["specs"]
     npre = sum(plan["batches"])
@@ -181,21 +203,32 @@ def execute(sim, plan):
     for b in plan["batches"]:
         cum += b
         tb.pull(sb, stop_revision=specs[cum - 1]["id"].encode())
+    if plan["scenario"] == "repack":
+        tb.repository.pack()  # the scenario packs again, through fresh objects
     pre_set = {s["id"] for s in specs[:npre]}
     post_set = {s["id"] for s in specs[: npre + plan["nscen"]]}
     del tb, sb
+    READS = ("get", "has", "stat", "list_dir", "readv", "iter_files_recursive", "stream_close", "readlink")
 
-    def run_point(fault, label):
+    def run_point(fault, label, rerun=True):
         sub = Sim(derive_seed(sim.seed, label), plan, step_cap=200000)
         mutops = []
+        allops = []
 
         def mon(s, actor, phase, op, path, extra):
-            if phase == "before" and actor.name == "main" and op not in ("get", "has", "stat", "list_dir", "readv", "iter_files_recursive", "stream_close", "readlink"):
-                mutops.append([op, storesim.path_class(path)])
+            if phase == "before" and actor.name == "main" and armed[0]:
+                pc = storesim.path_class(path)
+                allops.append([op, pc])
+                if op not in READS:
+                    mutops.append([op, pc])
 
+        armed = [False]
         sub.monitors.append(mon)
         tb2 = storesim.open_branch(url_t + "t")
         sb2 = storesim.open_branch(url_s + "s")
+        if plan["scenario"] == "repack_same":
+            tb2.repository.pack()  # the scenario packs again through the same objects
+        armed[0] = True
         if fault is not None:
             sub.arm([fault])
         else:
@@ -205,7 +238,7 @@ def execute(sim, plan):
             _scenario(plan, tb2, sb2, specs, npre)
         except SimCrash:
             pass
-        except Exception as e:  # noqa: BLE001
+        except (Exception, KeyboardInterrupt) as e:  # noqa: BLE001
             err = e
         crashed = sub.main_actor.dead
         nmut = sub.main_actor.nmut
@@ -218,19 +251,30 @@ def execute(sim, plan):
                     sub.fail("faultfree", ["faultfree", "none", plan["scenario"]], f"{plan['scenario']} failed without any fault: {type(err).__name__}: {err}\n" + "".join(traceback.format_exception(err))[-1500:])
                 except Violation:
                     pass
-            return forkenum.sub_result(sub, {"nmut": nmut, "ops": mutops})
-        if not crashed:
-            # the fault point lies beyond the end of the scenario
-            return forkenum.sub_result(sub, {"nmut": nmut, "missed": True})
-        site_op = mutops[fault["at"] - 1] if fault["at"] - 1 < len(mutops) else ["?", "?"]
-        site = f"{plan['scenario']}:{site_op[0]}:{site_op[1]}:{label.split(':')[-1]}"
-        sub.nontrivial = 1 < fault["at"] < plan.get("_n", 10**9)
+            return forkenum.sub_result(sub, {"nmut": nmut, "ops": mutops, "allops": allops})
+        fkind = "crash"
+        if fault["kind"] == "err_before":
+            fkind = "interrupt" if "exc" in fault else "err_before"
+            if not sub.faults_fired:
+                return forkenum.sub_result(sub, {"nmut": nmut, "missed": True})
+            site_op = allops[fault["at"] - 1] if fault["at"] - 1 < len(allops) else ["?", "?"]
+            sub.event("operation-ended", type(err).__name__ if err is not None else "normally")
+            sub.probe("error_swallowed" if err is None else "error_propagated")
+            sub.nontrivial = True
+        else:
+            if not crashed:
+                # the fault point lies beyond the end of the scenario
+                return forkenum.sub_result(sub, {"nmut": nmut, "missed": True})
+            site_op = mutops[fault["at"] - 1] if fault["at"] - 1 < len(mutops) else ["?", "?"]
+            sub.nontrivial = 1 < fault["at"] < plan.get("_n", 10**9)
+        site = f"{plan['scenario']}:{site_op[0]}:{site_op[1]}:{label.split(':', 1)[-1]}"
         for frag, probe in (("upload/", "crash_before_rename_to_packs"), ("indices/", "crash_in_index_writes"), ("pack-names", "crash_at_pack_names"), ("obsolete_packs", "crash_in_obsoletion"), ("lock/", "crash_in_lock_ops"), ("last-revision", "crash_at_branch_tip")):
             if frag in site_op[1]:
-                sub.probe(probe)
+                sub.probe(probe + ("" if fkind == "crash" else "_" + fkind))
+        del tb2, sb2
         sub.restart_main()
         try:
-            _recover_and_judge(sub, plan, mh, url_t, url_s, pre_set, post_set, site)
+            _recover_and_judge(sub, plan, mh, url_t, url_s, pre_set, post_set, site, fkind, rerun)
         except Violation:
             pass  # recorded in sub.violation
         except SimCrash:
@@ -239,7 +283,7 @@ def execute(sim, plan):
             import traceback
 
             try:
-                sub.fail("recovery_exception", ["recovery_exception", "crash", site], f"{type(e).__name__}: {e}\n{traceback.format_exc()[-1500:]}")
+                sub.fail("recovery_exception", ["recovery_exception", fkind, site], f"{type(e).__name__}: {e}\n{traceback.format_exc()[-1500:]}")
             except Violation:
                 pass
         return forkenum.sub_result(sub, {"nmut": nmut, "site": site})
@@ -265,25 +309,56 @@ def execute(sim, plan):
         sim.event("dry", plan["scenario"], n)
         if any("autopack" in o[1] or o[1].startswith("repository/obsolete_packs") for o in ops):
             sim.probe("autopack_or_pack_ran")
-        points = []
+        allops = dry.get("allops", [])
+        rng = __import__("random").Random(plan["sample_seed"])
+        strata = {"index": [], "names": [], "obsolete": [], "error": [], "rest": []}
         for k in range(1, n + 1):
-            points.append((k, "dropped"))
-            points.append((k, "applied"))
-            if ops[k - 1][0] in TEARABLE:
-                points.append((k, "torn"))
+            op, path = ops[k - 1]
+            where = "names" if "pack-names" in path else "obsolete" if "obsolete_packs" in path else "index" if ("indices/" in path or "packs/" in path) else "rest"
+            strata[where].append((k, "dropped"))
+            strata[where].append((k, "applied"))
+            if op in TEARABLE:
+                strata[where].append((k, "torn"))
+        # past the commit point: an I/O error or an interrupt before each later store op
+        names_put = [i for i, o in enumerate(allops, 1) if o[0] in ("put", "put_na") and o[1].endswith("pack-names")]
+        strata["error_obs"] = []
+        if names_put:
+            for a in range(names_put[0] + 1, len(allops) + 1):
+                st = "error_obs" if "obsolete_packs" in allops[a - 1][1] else "error"
+                strata[st].append((a, "err:" + rng.choice(ERRORS)))
+                strata[st].append((a, "int"))
+            sim.probe("ops_after_pack_names_put", len(allops) - names_put[0])
         if sim.tier != "thorough":
-            rng = __import__("random").Random(plan["sample_seed"])
-            rng.shuffle(points)
-            points = sorted(points[:12])
+            for v in strata.values():
+                rng.shuffle(v)
+            order = ["index", "error_obs", "names", "obsolete", "error_obs", "rest", "error", "index", "error_obs", "rest"]
+            points = []
+            while len(points) < 10 and any(strata.values()):
+                for name in order:
+                    if strata[name] and len(points) < 10:
+                        points.append(strata[name].pop())
+            points = [(k, v, i % 3 == 0) for i, (k, v) in enumerate(sorted(points, key=lambda p: (p[1][:3] in ("err", "int"), p[0], p[1])))]
+        else:
+            points = [(k, v, True) for name in ("index", "names", "obsolete", "rest", "error_obs", "error") for k, v in strata[name]]
+            points.sort(key=lambda p: (p[1][:3] in ("err", "int"), p[0], p[1]))
     tornrng = __import__("random").Random(plan["sample_seed"] + 1)
-    for k, variant in points:
-        fault = {"kind": "crash", "at": k, "count": "mut", "applied": variant != "dropped"}
-        if variant == "torn":
-            fault["torn"] = tornrng.choice([0.0, 0.3, 0.5, 0.9])
-        label = f"k{k}:{variant}"
-        res = forkenum.run_forked(lambda f=fault, lb=label: run_point(f, lb), timeout=200)
+    for pt in points:
+        k, variant = pt[0], pt[1]
+        rerun = pt[2] if len(pt) > 2 else True
+        if variant.startswith("err:"):
+            fault = {"kind": "err_before", "at": k, "count": "any", "err": variant[4:]}
+            label = f"a{k}:{variant}"
+        elif variant == "int":
+            fault = {"kind": "err_before", "at": k, "count": "any", "exc": KeyboardInterrupt("injected interrupt")}
+            label = f"a{k}:{variant}"
+        else:
+            fault = {"kind": "crash", "at": k, "count": "mut", "applied": variant != "dropped"}
+            if variant == "torn":
+                fault["torn"] = tornrng.choice([0.0, 0.3, 0.5, 0.9])
+            label = f"k{k}:{variant}"
+        res = forkenum.run_forked(lambda f=fault, lb=label, rr=rerun: run_point(f, lb, rr), timeout=200)
         if res.get("verdict") == "violation":
-            plan["only"] = [[k, variant]]
+            plan["only"] = [[k, variant, rerun]]
         forkenum.merge_sub(sim, res, label)
     sim.state_seen((plan["fmt"], plan["pre_kind"], plan["scenario"], n))
 
